@@ -35,6 +35,9 @@ type Faults struct {
 	// BlackholeAt >0: output bytes from number BlackholeAt on are accepted but
 	// never delivered.
 	BlackholeAt int64
+	// CloseErr: Close closes the endpoint and then reports an error (the
+	// way close(2) on a reset socket or a TLS close_notify write can).
+	CloseErr bool
 }
 
 var latencies = []time.Duration{0, 0, 0, 0, time.Millisecond, 5 * time.Millisecond, 50 * time.Millisecond, 300 * time.Millisecond}
@@ -423,6 +426,10 @@ func (c *Conn) doClose(rst bool) error {
 	wake(c.out.wrWake)
 	wake(c.in.rdWake)
 	wake(c.in.wrWake)
+	if c.F.CloseErr && !rst {
+		c.n.stat("fault.close_error")
+		return c.opErr("close", syscall.ECONNRESET)
+	}
 	return nil
 }
 
